@@ -41,12 +41,14 @@ def build_streams(rng, tier):
     h, cm = impl_classify.handle, impl_classify.strip_meta
     kw = dict(batch_oracle=batch_oracle, canon=cm, tag=tag_classify, nontrivial=nontrivial_classify, shrink=shrink_classify)
     big = [G.line_of("classify", G.collection(rng, 14 if th else 10, 20)) for _ in range(2000 if th else 400)]
+    lines = classify_lines(rng, tier)
     return [
         Stream("corpus", corpus_lines(PID), h, **kw),
         Stream("exhaustive-small", exhaustive_small_lines(), h, **kw),
-        Stream("structured+random", classify_lines(rng, tier), h, **kw),
+        Stream("structured+random", lines, h, **kw),
         Stream("name-consistency-any-n", big, h, **kw),
         history_stream("C09", rng, tier),
+        assembled_stream(lines[:500 if th else 120] + big[:200 if th else 50], **kw),
     ]
 
 RULE = ("same generator as C01 (n<=5, thorough 6) with closure size from the Lean-verified checker; a second stream on up to 10 (thorough 14) "
@@ -58,6 +60,9 @@ def main(tier):
 
 def replay(path):
     r = json.load(open(path)); line = r.get("line")
+    sp = replay_special(PID, line, batch_oracle)
+    if sp is not None:
+        return sp
     out = impl_classify.handle(line); why = batch_oracle([line], [out])[0]
     print("line:", line); print("implementation:", out); print("model:", run_model([line])[0]); print("oracle:", why or "holds")
     return 1 if why else 0
